@@ -11,6 +11,10 @@ use crate::exec::{self, Violation};
 
 pub type Target = (String, String); // (invariant, key base)
 
+thread_local! {
+    static HANGS: std::cell::Cell<u32> = const { std::cell::Cell::new(0) };
+}
+
 pub fn key_base(key: &str) -> String {
     // keys look like "<what>[:<how>]|<classes>"; the class part may shrink
     key.split('|').next().unwrap_or(key).to_string()
@@ -33,7 +37,14 @@ fn still_fails(desc_json: &Value, target: &Target, execs: &mut usize) -> Option<
         }
     }
     *execs += 1;
-    let out = exec::execute(&desc);
+    // candidates can drive typify into loops that never end (unbroken alias
+    // cycles): run under the watchdog; a hung candidate is simply not accepted
+    // (unless a hang is what is being minimised). The abandoned thread spins
+    // until the process exits, so the number of hangs is bounded below.
+    let (out, hung) = exec::execute_watched(&desc, std::time::Duration::from_secs(5));
+    if hung {
+        HANGS.with(|h| h.set(h.get() + 1));
+    }
     if out.harness_error.is_some() {
         return None;
     }
@@ -272,7 +283,7 @@ pub fn shrink(desc: &RunDesc, target: &Target, max_execs: usize) -> (RunDesc, Sh
     macro_rules! try_candidate {
         ($cand:expr) => {{
             let cand: Value = $cand;
-            if execs < max_execs && cand != cur {
+            if execs < max_execs && cand != cur && HANGS.with(|h| h.get()) < 3 {
                 if still_fails(&cand, target, &mut execs).is_some() {
                     cur = cand;
                     accepted += 1;
@@ -285,8 +296,9 @@ pub fn shrink(desc: &RunDesc, target: &Target, max_execs: usize) -> (RunDesc, Sh
             }
         }};
     }
+    HANGS.with(|h| h.set(0));
     let mut progress = true;
-    while progress && execs < max_execs {
+    while progress && execs < max_execs && HANGS.with(|h| h.get()) < 3 {
         progress = false;
         // 0. drop the variant when the target is a step invariant
         if !is_relation && cur.get("variant").map(|v| !v.is_null()).unwrap_or(false) {
